@@ -3861,7 +3861,14 @@ func (r *Resolver) processDelegation(ctx context.Context, rs *resolveState, resp
 	// context is gone — an unbounded context.Background here
 	// used to leak goroutines and mutate authservers long
 	// after the query returned.
-	if r.cfg.IPv6Access {
+	//
+	// A delegation crossed by such a job itself (its context is marked
+	// best-effort) starts no further job: the job's context is detached, so
+	// depth and loop tracking start over in it, and an authority that names a
+	// fresh nameserver in a fresh child zone in every referral would
+	// otherwise be walked one generation per job, forever, on behalf of one
+	// long-answered client.
+	if r.cfg.IPv6Access && !middleware.IsBestEffortRecursionWork(ctx) {
 		reqid := requestIDFromContext(ctx)
 		work := rs.work
 		attemptGuard := middleware.ResolutionAttemptGuardFrom(ctx)
